@@ -67,7 +67,14 @@ func (ex *Exec) freshResult(t types.Type, hint string, st *State, pc *Term) Valu
 func (fr *Frame) unknownCall(name string, args []Value, pc *Term, st *State, resT types.Type, pos token.Pos) callResult {
 	ex := fr.ex
 	ex.note("unmodelled call treated as effect-free on modelled state, result arbitrary: %s", name)
-	return callResult{val: ex.freshResult(resT, "ret", st, pc), st: st}
+	v := ex.freshResult(resT, "ret", st, pc)
+	for _, e := range ex.ctx.externs {
+		if strings.Contains(name, e[0]) && e[1] == "nonnil" {
+			ex.note("assumed (extern): results of %s are non-nil", e[0])
+			ex.assumeNonNil(v, pc)
+		}
+	}
+	return callResult{val: v, st: st}
 }
 
 func (fr *Frame) callStatic(fn *ssa.Function, args []Value, bind []Value, pc *Term, st *State, pos token.Pos, resT types.Type) callResult {
@@ -423,7 +430,7 @@ func (fr *Frame) chanRecv(ch Value, x *ssa.UnOp, pc *Term, st *State) Value {
 	}
 	v := ex.freshResult(et, "recv", st, pc)
 	if c, ok := ch.(ChanV); ok {
-		ex.recvEvent(st, c, v, pc)
+		ex.recvEvent(st, c, v, pc, et)
 	}
 	if ex.ctx.chanDisc(x.X) == "nonnil" {
 		if p, ok := v.(PtrV); ok && p.Kind == PHeap {
@@ -439,7 +446,7 @@ func (fr *Frame) chanRecv(ch Value, x *ssa.UnOp, pc *Term, st *State) Value {
 	return v
 }
 
-func (ex *Exec) recvEvent(st *State, c ChanV, v Value, pc *Term) {
+func (ex *Exec) recvEvent(st *State, c ChanV, v Value, pc *Term, et types.Type) {
 	n := st.get("ghost|recv.n", SBV(64))
 	a := st.get("ghost|recv.ch", SArr(SBV(64), SRef))
 	st.set("ghost|recv.ch", Store(a, n, c.Ref))
@@ -448,8 +455,9 @@ func (ex *Exec) recvEvent(st *State, c ChanV, v Value, pc *Term) {
 		st.set("ghost|recv.val", Store(va, n, p.Ref))
 	}
 	st.set("ghost|recv.n", ex.bump(pc, n))
-	cnt := st.get("ghost|recv.cnt", SArr(SRef, SBV(64)))
-	st.set("ghost|recv.cnt", Store(cnt, c.Ref, ex.bump(pc, Select(cnt, c.Ref))))
+	cn := "ghost|recv.cnt|" + typeKey(et)
+	cnt := st.get(cn, SArr(SRef, SBV(64)))
+	st.set(cn, Store(cnt, c.Ref, ex.bump(pc, Select(cnt, c.Ref))))
 }
 
 func (fr *Frame) chanSend(ch Value, v Value, chExpr ssa.Value, pc *Term, st *State, pos token.Pos) {
@@ -478,8 +486,9 @@ func (fr *Frame) chanSend(ch Value, v Value, chExpr ssa.Value, pc *Term, st *Sta
 		st.set("ghost|send.val", Store(va, n, p.Ref))
 	}
 	st.set("ghost|send.n", ex.bump(pc, n))
-	cnt := st.get("ghost|send.cnt", SArr(SRef, SBV(64)))
-	st.set("ghost|send.cnt", Store(cnt, c.Ref, ex.bump(pc, Select(cnt, c.Ref))))
+	cn := "ghost|send.cnt|" + typeKey(chanElem(chExpr.Type()))
+	cnt := st.get(cn, SArr(SRef, SBV(64)))
+	st.set(cn, Store(cnt, c.Ref, ex.bump(pc, Select(cnt, c.Ref))))
 }
 
 func (fr *Frame) selectInstr(x *ssa.Select, pc *Term, st *State) Value {
@@ -515,7 +524,7 @@ func (fr *Frame) selectInstr(x *ssa.Select, pc *Term, st *State) Value {
 				anyClosedRecv = append(anyClosedRecv, Select(cl, c.Ref))
 				// ghost: record the receive when this case is taken
 				s2 := st.clone()
-				ex.recvEvent(s2, c, v, And(pc, taken))
+				ex.recvEvent(s2, c, v, And(pc, taken), et)
 				*st = *MergeStates([]*Term{taken, Not(taken)}, []*State{s2, st})
 				// a nil channel is never ready
 				ex.assume(pc, Implies(taken, Neq(c.Ref, RefNil())))
@@ -715,3 +724,35 @@ func shortFn(fn *ssa.Function) string {
 }
 
 var _ = fmt.Sprintf
+
+func (ex *Exec) assumeNonNil(v Value, pc *Term) {
+	switch x := v.(type) {
+	case IfaceV:
+		ex.assume(pc, Neq(x.Tag, BV(0, 16)))
+	case PtrV:
+		if x.Kind == PHeap {
+			ex.assume(pc, Neq(x.Ref, RefNil()))
+		}
+	case FuncV:
+		if x.Fn == nil {
+			ex.assume(pc, Neq(x.ID, RefNil()))
+		}
+	case ChanV:
+		ex.assume(pc, Neq(x.Ref, RefNil()))
+	case TupleV:
+		for _, e := range x.E {
+			if _, isErr := e.(IfaceV); isErr && len(x.E) > 1 {
+				// the trailing error of a multi-value result stays arbitrary
+				continue
+			}
+			ex.assumeNonNil(e, pc)
+		}
+	}
+}
+
+func chanElem(t types.Type) types.Type {
+	if c, ok := t.Underlying().(*types.Chan); ok {
+		return c.Elem()
+	}
+	return types.Typ[types.Invalid]
+}
